@@ -157,3 +157,16 @@ CHECKS["C08"] = {
     "note": ("Not decided (value computations): REGEX match semantics and anchoring, DATE/ISO8601 calendar validity, CONST equality across types, _parse_atom. The rules fix the present shape of the evaluators; "
              "a behaviour-preserving rewrite into another idiom is reported as a violation of the shape rule rather than silently accepted - the accepted idioms are listed in each rule's message."),
 }
+
+CHECKS["C12"] = {
+    "technique": "static analysis of the grammar generator: context-sensitive taint analysis of every string template that becomes grammar text (literal / comment / rule position), abstract classification of dynamic parts, automata inclusion for the regex shape tests, CFG rules on the constant rules (defined-before-use, root on all paths)",
+    "text": ("Decides on gbnf_compiler.py: every rules.append in compile_schema and every fragment returned by the per-kind compilers is scanned with a GBNF lexical context (inside \"...\", inside a # comment, "
+             "rule position); each dynamic part must be, respectively, an _escape_literal result, a one-line string, or a sanitised+uniquified rule name / escaped quoted literal / alternation of those / compiled "
+             "fragment; regex text is kept only under a whole-string shape test whose language is proved (automata inclusion) to be a sequence of GBNF-safe classes/dots with + * ? ; field rule names pass a "
+             "uniquifier seeded with exactly the structural names the constants define, and the `field` alternation uses the same names; each constant rule's references are defined on every path that defines "
+             "it, root is appended on every path, no structural rule twice per path; _escape_literal is backslash-then-quote-then-line-breaks; the sanitiser lets through only [A-Za-z0-9_] (its guard is "
+             "evaluated on all ASCII characters); the tools hand the compiled grammar on without cutting or rewriting it. Three generator defects found on the pinned tree were repaired by fix: commits."),
+    "note": ("The output grammars are not parsed by an independent GBNF parser: well-formedness of outputs is argued from the generator's templates, which is sound only for the listed necessary conditions "
+             "(balanced literals/classes in constants are checked by the scanner; semantics of llama.cpp's parser beyond that is assumed). CONTRACT token reconstruction is covered only in so far as its result passes "
+             "through the same compile_schema."),
+}
